@@ -287,7 +287,20 @@ def unparse_Attribute(node: Attribute) -> unparse_gen_t:
 
 def unparse_Subscript(node: Subscript) -> unparse_gen_t:
     value = yield PREC_ATTR_SLOT, node.value
-    _slice = yield PREC_EXPR_SLOT, node.slice
+    _slice_node = node.slice
+    if isinstance(_slice_node, Tuple) and any(
+        isinstance(item, Slice) for item in _slice_node.elts
+    ):
+        # a[1:2, 3]
+        # slices are only valid in a tuple without parentheses
+        elts = []
+        for item in _slice_node.elts:
+            elts.append((yield PREC_EXPR_SLOT, item))
+        _slice = ",".join(elts)
+        if len(elts) == 1:
+            _slice += ","
+    else:
+        _slice = yield PREC_EXPR_SLOT, _slice_node
     return f"{value}[{_slice}]"
 
 
